@@ -21,12 +21,21 @@ def run(ctx):
     for variant, kinds in (("default", ["mutex", "spin"]), ("sync", ["spin"]), ("sim", ["spin"])):
         for kind in kinds:
             plan.append((variant, kind, 4, 1, "0-3", True))
+    # the same on unoptimised builds of the library (the repository's default configuration has no optimisation flags): what an optimiser
+    # keeps in a register lives in memory there
+    for variant, kinds in (("default@O0", ["mutex", "spin"]), ("sync@O0", ["spin"])):
+        for kind in kinds:
+            plan.append((variant, kind, 6, 2, "0-5"))
     for item in plan:
         variant, kind, nth, nobj, cores = item[:5]
         fresh = len(item) > 5
-        exe = build.driver("drv_lock", ["drv_lock.c"], variant=variant)
-        label = "%s-%s" % (kind, {"default": "c11"}.get(variant, variant))
-        base = ctx.path("lk_%s_%s_%d_%d%s" % (variant, kind, nth, nobj, "_fresh" if fresh else ""))
+        opt = "-O1"
+        if "@" in variant:
+            variant, o = variant.split("@")
+            opt = "-" + o
+        exe = build.driver("drv_lock", ["drv_lock.c"], variant=variant, opt=opt)
+        label = "%s-%s%s" % (kind, {"default": "c11"}.get(variant, variant), "" if opt == "-O1" else opt)
+        base = ctx.path("lk_%s%s_%s_%d_%d%s" % (variant, opt.replace("-", "_"), kind, nth, nobj, "_fresh" if fresh else ""))
         # spinning threads on one core burn their time slice: keep spin runs short there
         ops = 80 if kind == "spin" and cores == "0" else (120 if ctx.quick else 250)
         cmd = ["taskset", "-c", cores, exe, base, kind, str(nth), str(nobj), str(5 if ctx.quick else 16), str(ops), str(rng.randint(1, 10 ** 6))]
@@ -53,6 +62,9 @@ def run(ctx):
                 ev = json.loads(open(f).read().split("\n")[matched[0]])
             except Exception:
                 pass
+            if ev and ev.get("e") == "Overlap":
+                ctx.violation("%s:overlap" % label, "lock (%s): two threads were inside the same critical section at once (six threads taking two lock objects through lock and trylock, not logged)" % label, [f])
+                continue
             if ev and ev.get("e") == "LockDead":
                 ctx.violation("%s:lock-dead" % label, "lock (%s): a thread that only locks and unlocks, next to one that only calls trylock, did not finish within 15 s: the lock was lost (held by nobody)" % label, [f])
                 continue
